@@ -859,7 +859,8 @@ func ruleCapacity(c *Ctx) {
 				// sum: limit = size / V with V the number of shards
 				sizePos := false
 				if sizeSym != nil {
-					if siv := pr.Facts.Interval(sizeSym); siv.Lo != nil && siv.Lo.Sign() >= 1 {
+					// every path that a size >= 1 can take: the substitute for "size not set" is for sizes below 1 only
+					if siv := pr.Facts.Interval(sizeSym); siv.Hi == nil || siv.Hi.Sign() >= 1 {
 						sizePos = true
 					}
 				}
@@ -894,6 +895,9 @@ func ruleCapacity(c *Ctx) {
 					}
 				}
 				if st, ok := in.(*ssa.Store); ok {
+					if nt, ok := st.Val.Type().(*types.Named); ok && nt.Obj().Pkg() != nil && nt.Obj().Pkg().Path() == "github.com/golang/groupcache/lru" && nt.Obj().Name() == "Cache" {
+						bad = append(bad, fmt.Sprintf("%s: %s overwrites a whole lru.Cache value (the limit given to lru.New is lost: a zero lru.Cache has MaxEntries 0, which means no limit)", c.P.pos(st.Pos()), funcName(f)))
+					}
 					if fa, ok := st.Addr.(*ssa.FieldAddr); ok {
 						fv := fieldOf(fa.X.Type(), fa.Field)
 						if fv.Pkg() != nil && fv.Pkg().Path() == "github.com/golang/groupcache/lru" && fv.Name() == "OnEvicted" && harmlessEvictionHook(st) {
